@@ -37,7 +37,7 @@ ASSUMPTIONS = ['gfortran 12 -O0 with run-time checks is the reference semantics'
                'generated programs are well-defined by construction (original must compile and run clean, else the case is discarded as inconclusive)',
                'real outputs compared to relative 1e-11',
                'recursion, sequence association and procedure pointers are not generated']
-BUDGET_S = {'quick': 400, 'thorough': 3000}
+BUDGET_S = {'quick': 1300, 'thorough': 3000}  # DEV
 CASE_TIMEOUT_S = 180
 
 MODES = ['marked', 'internal', 'functions', 'elemental', 'stmtfunc', 'constants', 'composed', 'composed']
@@ -52,7 +52,8 @@ HAZ = [
     ('fun_in_inline_if', 'elemental'), ('all_functions_with_intrinsics', 'functions'),
     ('fun_keyword_arg', 'functions'), ('const_chain', 'constants'), ('assoc_param', 'constants'),
     ('absent_optional_fun', 'functions'), ('callee_return', 'internal'), ('dummy_name_capture', 'functions'),
-    ('nested_same_fun', 'internal'), ('deadcode_simplify', 'composed'),
+    ('nested_same_fun', 'internal'), ('deadcode_simplify', 'composed'), ('assumed_shape_lb', 'marked'),
+    ('absent_optional_composed', 'composed'),
 ]
 
 
@@ -100,7 +101,11 @@ def plan(idx, rng):
                 'adjust_imports': rng.random() < 0.7, 'external_only': rng.random() < 0.6}
         if hazard == 'deadcode_simplify':
             opts['remove_dead_code'] = True
-        f['optional_absent'] = opts['remove_dead_code']
+        # absent optionals rely on the dead-code pass to drop the PRESENT-guarded statements; known to fail: own slice
+        f['optional_absent'] = False
+        if hazard == 'absent_optional_composed':
+            opts.update(remove_dead_code=True, inline_marked=True)
+            f['optional_absent'] = True
         # dead-code removal rewrites every IF/SELECT condition with loki.expression.simplify (defects: see C08);
         # outside the hazard slice the conditions are plain comparisons that simplify leaves alone
         f['simple_conditions'] = opts['remove_dead_code'] and hazard != 'deadcode_simplify'
@@ -259,12 +264,14 @@ def classify(mode, hazard, symptom, detail, case, new_text, exc=None):
         return 'inline:function-in-DO-WHILE-condition-evaluated-once'
     if hazard == 'fun_in_elseif' and symptom in ('differ', 'compile', 'exception'):
         return 'inline:function-in-ELSE-IF-condition'
-    if hazard == 'kind_selected' and symptom == 'compile' and re.search(r'_selected_real_kind', lo_new):
+    if hazard == 'kind_selected' and symptom in ('compile', 'reparse') and re.search(r'_selected_real_kind', lo_new):
         return 'constants:kind-parameter-expression-as-literal-suffix'
     if hazard == 'neg_const' and symptom in ('compile', 'reparse'):
         return 'constants:negative-constant-unbracketed'
     if hazard == 'autoarr_two_sizes' and symptom in ('differ', 'compile'):
         return 'inline:hoisted-automatic-array-sized-by-one-call-only'
+    if hazard == 'assumed_shape_lb' and symptom == 'differ':
+        return 'inline:assumed-shape-dummy-actual-lower-bound-not-shifted'
     if hazard == 'fun_in_inline_if' and symptom in ('reparse', 'compile', 'differ'):
         return 'inline:function-in-inline-IF-statement'
     if hazard == 'all_functions_with_intrinsics' and symptom == 'exception' and isinstance(exc, AssertionError):
@@ -275,7 +282,7 @@ def classify(mode, hazard, symptom, detail, case, new_text, exc=None):
         return 'constants:initialiser-referring-to-other-parameter'
     if hazard == 'assoc_param' and symptom in ('compile', 'reparse'):
         return 'constants:associate-name-of-parameter-selector-replaced'
-    if hazard == 'absent_optional_fun' and symptom in ('compile', 'exception'):
+    if hazard in ('absent_optional_fun', 'absent_optional_composed') and symptom in ('compile', 'exception'):
         return 'inline:absent-optional-dummy-left-in-inlined-body'
     if hazard == 'nested_same_fun' and symptom in ('compile', 'exception'):
         return 'inline:nested-reference-to-same-function-left-behind'
